@@ -413,15 +413,33 @@ func (v *validator) updateCRL(endpoint string, current *revocationList) error {
 	for _, rev := range crl.RevokedCertificateEntries {
 		revoked[rev.SerialNumber.String()] = true
 	}
-	// set the new CRL
-	v.crls.Store(endpoint, &revocationList{
+	// set the new CRL, unless the stored CRL is newer (endpoint serves an older CRL, or a concurrent update was faster)
+	update := &revocationList{
 		list:        crl,
 		issuer:      current.issuer,
 		revoked:     revoked,
 		lastUpdated: nowFunc(),
-	})
+	}
+	for {
+		stored, ok := v.crls.Load(endpoint)
+		if !ok {
+			if _, ok = v.crls.LoadOrStore(endpoint, update); !ok {
+				return nil
+			}
+			continue
+		}
+		if isOlder(crl, stored.(*revocationList).list) || v.crls.CompareAndSwap(endpoint, stored, update) {
+			return nil
+		}
+	}
+}
 
-	return nil
+// isOlder returns true if crl was issued before other, according to the CRL number or ThisUpdate if a number is missing.
+func isOlder(crl, other *x509.RevocationList) bool {
+	if crl.Number != nil && other.Number != nil {
+		return crl.Number.Cmp(other.Number) < 0
+	}
+	return crl.ThisUpdate.Before(other.ThisUpdate)
 }
 
 // downloadCRL downloads and parses the CRL
